@@ -30,7 +30,7 @@ def _env(hashseed):
 
 
 def _spawn(prop, tier, seeds, out, hashseed=0, pyflags=(), deadline=0.0, replay_dir='', cap=60.0,
-           shrink_budget=250, replay=''):
+           shrink_budget=400, replay=''):
     cmd = [PY, *pyflags, WORKER, '--prop', prop, '--tier', tier, '--out', out, '--cap', str(cap),
            '--shrink-budget', str(shrink_budget)]
     if replay:
@@ -137,7 +137,7 @@ def check(prop, tier='quick', seed=None, budget_s=None):
             procs.append(_spawn(prop, tier, f'{base + w}:{base + nruns}:{nproc}', out,
                                 hashseed=leg.get('hashseed', 0), pyflags=leg.get('pyflags', ()),
                                 deadline=deadline, replay_dir=replay_dir, cap=cap,
-                                shrink_budget=plan.get('shrink_budget', 250)))
+                                shrink_budget=plan.get('shrink_budget', 400)))
         # determinism spot check: first seeds again, in one more fresh process with another worker count
         det_n = plan.get('det_runs', 40)
         det_out = os.path.join(tmp, 'det.jsonl')
